@@ -106,6 +106,8 @@ def run(ctx):
             g = lib.fn(path)
             if g is not None and name != 'difference':
                 ctx.step(C05.r05_4_clear, ctx, name, g)
+    else:
+        ctx.missing('R05.4', 'anchor:heap-primitives', 'the stream heap no longer has pop / pop_if_equal / pop_if_le: the per-candidate clear is not decided for this design')
     # per-step allocations other than the allow-listed growth
     als, _ = growth.alloc_sites(lib, cg, nexts)
     for g, t, x in als:
